@@ -74,12 +74,19 @@ func fnExec(ctx *cmdContext, args map[string]any) (output respValue, err error) 
 	// switches to: the commands queued after it run there, and they belong to the same
 	// atomic unit. Several data stores are taken in index order, so that two transactions
 	// cannot wait for each other.
+	// The same goes for the data stores of the watched keys: their stamps are compared below.
 	owned := map[*dataStore]*dataStoreCommand{ctx.dsc.ds: ctx.dsc}
 	order := []*dataStoreCommand{}
+	watched := map[*dataStore]bool{}
+	for watch := range ctx.cs.copyWatches() {
+		watched[watch.ds] = true
+	}
 	for index := 0; index <= 15; index++ {
 		var ds *dataStore
 		if index == ctx.cs.selectedDb {
 			ds = ctx.dsc.ds
+		} else if existing, exists := ctx.cs.dss.getDb(index, false); exists && watched[existing] {
+			ds = existing
 		}
 		for _, cc := range *ctx.cs.cmdQueue {
 			if !strings.EqualFold(cc.cmdName, "select") {
